@@ -475,7 +475,7 @@ def call_method(interp, recv, name, args, kwargs):
     if name == 'join':
         from . import models
         return models.m_str_join(interp, recv, args, kwargs)
-    if name == 'format' or name == '__mod__':
+    if name in ('format', 'format_map', '__mod__'):
         return SStr(_fresh(interp, 'fmt'))
     if name == 'replace':
         old, new = args[0], args[1]
@@ -485,7 +485,34 @@ def call_method(interp, recv, name, args, kwargs):
         if isinstance(old, str) and isinstance(new, str):
             if hasattr(z3, 'ReplaceAll'):
                 return wrap(z3.ReplaceAll(t, _s(old), _s(new)))
+            if len(old) == 1 and len(new) == 1 and old != new:
+                # all occurrences of one character by another: abstracted by what is true of the result
+                # (same length, the old character is gone, unchanged when it did not occur, and -- position
+                # by position -- a character other than the old one stays)
+                r = _fresh(interp, 'replaced')
+                o, nw = z3.StringVal(old), z3.StringVal(new)
+                st.assume(z3.Length(r) == z3.Length(t))
+                st.assume(z3.Not(z3.Contains(r, o)))
+                st.assume(z3.Implies(z3.Not(z3.Contains(t, o)), r == t))
+                st.assume(z3.Implies(z3.Length(t) > 0,
+                                     z3.If(z3.PrefixOf(o, t), z3.PrefixOf(nw, r),
+                                           z3.SubString(r, 0, 1) == z3.SubString(t, 0, 1))))
+                return SStr(r)
         raise Unsupported('str.replace (all occurrences) with symbolic pattern')
+    if name == 'zfill':
+        w = args[0]
+        if not isinstance(w, int) or isinstance(w, bool):
+            raise Unsupported('str.zfill with symbolic width')
+        # pad with zeros up to width w, after a leading sign: a case split on the (short) length, as a term
+        L = z3.Length(t)
+        signed = z3.Or(z3.PrefixOf(z3.StringVal('-'), t), z3.PrefixOf(z3.StringVal('+'), t))
+        res = t
+        for k in range(w - 1, -1, -1):
+            pad = z3.StringVal('0' * (w - k))
+            padded = z3.If(signed, z3.Concat(z3.SubString(t, 0, 1), pad, z3.SubString(t, 1, L - 1)),
+                           z3.Concat(pad, t))
+            res = z3.If(L == k, padded, res)
+        return wrap(res)
     if name == 'encode':
         raise Unsupported('str.encode on symbolic string')
     if name == '__len__':
@@ -513,9 +540,19 @@ def call_method(interp, recv, name, args, kwargs):
     raise Unsupported('str.%s on symbolic string' % name)
 
 
+def _int_fns():
+    return (z3.Function('int.valid', z3.StringSort(), z3.BoolSort()),
+            z3.Function('int.value', z3.StringSort(), z3.IntSort()))
+
+
 def str_of_int(interp, n):
     t = n.t
-    return wrap(z3.If(t >= 0, z3.IntToStr(t), z3.Concat(z3.StringVal('-'), z3.IntToStr(-t))))
+    r = z3.If(t >= 0, z3.IntToStr(t), z3.Concat(z3.StringVal('-'), z3.IntToStr(-t)))
+    # trusted lemma (CPython): int(str(n)) == n for every int n -- instantiated at this n, so that a text
+    # that equals str(n) converts back to n without the solver having to invert int.to.str
+    valid, val = _int_fns()
+    interp.st.assume(z3.And(valid(r), val(r) == t))
+    return wrap(r)
 
 
 def int_of_str(interp, s):
@@ -524,16 +561,80 @@ def int_of_str(interp, s):
     predicate and value function."""
     st = interp.st
     t = _s(s)
-    valid = z3.Function('int.valid', z3.StringSort(), z3.BoolSort())
-    val = z3.Function('int.value', z3.StringSort(), z3.IntSort())
+    valid, val = _int_fns()
     digits = z3.Plus(z3.Range('0', '9'))
     plain = z3.InRe(t, digits)
     st.assume(z3.Implies(plain, z3.And(valid(t), val(t) == z3.StrToInt(t))))
     neg = z3.InRe(t, z3.Concat(z3.Re(z3.StringVal('-')), digits))
+    # '-' followed by decimal digits: valid, the negated value of the digits (so that int(str(n)) == n for n < 0)
+    st.assume(z3.Implies(neg, z3.And(valid(t), val(t) == -z3.StrToInt(z3.SubString(t, 1, z3.Length(t) - 1)))))
     if not st.fork(wrap(valid(t))):
         raise _pyraise(ValueError('invalid literal for int()'))
     return wrap(val(t))
 
 
 def join_slist(interp, sep, xs):
-    raise Unsupported('str.join over symbolic-length sequence (use a spec function / measure)')
+    """sep.join(xs) for a sequence of symbolic length.
+
+    The sequence is taken in its structural normal form (pieces: single elements and base
+    sequences, see seqs.parts_of).  The join of a *base* sequence b is an uninterpreted string
+    J(sep, b) -- a function of the (immutable) sequence, named by its uid -- about which only
+    `len(b) == 0 => J == ''` and `len(b) == 1 => J == b[0]` are stated.  The join of a concatenation is
+    composed from the joins of its pieces by the law
+        join(x ++ y) = join(y) if x is empty, join(x) if y is empty, else join(x) + sep + join(y)
+    which holds of Python's str.join for every x, y."""
+    from . import seqs, models
+    from .interp import PyRaise
+    st = interp.st
+    if not isinstance(sep, str):
+        raise Unsupported('str.join over symbolic-length sequence with symbolic separator')
+    acc_t, acc_n = None, None
+    for kind, v in seqs.parts_of(xs):
+        if kind == 'elem':
+            if isinstance(v, (SOpt, SChoice)):
+                v = interp.resolve(v)
+            if not isinstance(v, (SStr, str)):
+                raise _pyraise(TypeError('sequence item: expected str instance'))
+            t, n = _s(v), z3.IntVal(1)
+        else:
+            t, n = _join_of_base(interp, sep, v), v.length
+        if acc_t is None:
+            acc_t, acc_n = t, n
+        else:
+            joined = z3.Concat(acc_t, z3.StringVal(sep), t) if sep else z3.Concat(acc_t, t)
+            acc_t = z3.If(acc_n == 0, t, z3.If(n == 0, acc_t, joined))
+            acc_n = acc_n + n
+    if acc_t is None:
+        return ''
+    return wrap(z3.simplify(acc_t))
+
+
+def _join_of_base(interp, sep, b):
+    from . import models
+    from .interp import PyRaise
+    st = interp.st
+    key = ('__join__', sep, b.uid)
+    t = st.ghost.get(key)
+    if t is not None:
+        return t
+    t = z3.String('join[%r](%s)' % (sep, b.uid))
+    st.ghost[key] = t
+    st.assume(z3.Implies(b.length == 0, t == z3.StringVal('')))
+    # elements must be strings (else Python raises TypeError); len 1: the join is the element
+    st.no_fork += 1
+    try:
+        with st.scope(b.length >= 1):
+            if st.check() != z3.unsat:
+                e0 = models.slist_elem(interp, b, z3.IntVal(0))
+                if not isinstance(e0, (SStr, str)):
+                    raise Unsupported('str.join over symbolic-length sequence of non-strings')
+                first = _s(e0)
+            else:
+                first = None
+    except PyRaise as e:
+        raise Unsupported('str.join: element access raises %r' % (e.exc,))
+    finally:
+        st.no_fork -= 1
+    if first is not None:
+        st.assume(z3.Implies(b.length == 1, t == first))
+    return t
